@@ -155,6 +155,31 @@ func (in *Interp) intrinsic(fn *ssa.Function, args []Value) (Value, bool) {
 	case "verifNote":
 		in.p.notes = append(in.p.notes, in.strArg(args[0]))
 		return nil, true
+	case "verifMentions":
+		// syntactic information flow: does the value's term depend on a symbol
+		// whose name contains the given text? (no dependency => no flow)
+		sub := sanitizeTag(in.strArg(args[1]))
+		return Bool(termMentions(args[0].(*Term), sub, map[int]bool{})), true
+	case "verifBytesMention":
+		sub := sanitizeTag(in.strArg(args[1]))
+		sl := args[0].(Slice)
+		if sl.obj == nil {
+			return TFalse, true
+		}
+		a := in.sarrOf(sl)
+		seen := map[int]bool{}
+		off, ok1 := sl.off.ConstVal()
+		n, ok2 := sl.len.ConstVal()
+		if ok1 && ok2 && n <= 1<<17 {
+			for i := uint64(0); i < n; i++ {
+				if termMentions(a.get(C64(off+i)), sub, seen) {
+					return TTrue, true
+				}
+			}
+			return TFalse, true
+		}
+		// symbolic window: conservative, anything the backing rope holds
+		return Bool(termMentions(sl.off, sub, seen) || termMentions(sl.len, sub, seen) || ropeMentions(a.r, sub, seen, map[Rope]bool{})), true
 	case "verifSymbolic":
 		return TTrue, true
 	case "verifBytesEq":
@@ -1049,4 +1074,47 @@ func init() {
 		}
 		return sl
 	}
+}
+
+func termMentions(t *Term, sub string, seen map[int]bool) bool {
+	if t == nil || seen[t.id] {
+		return false
+	}
+	seen[t.id] = true
+	if (t.op == OpSym || t.op == OpApply) && strings.Contains(t.name, sub) {
+		return true
+	}
+	for _, a := range t.args {
+		if termMentions(a, sub, seen) {
+			return true
+		}
+	}
+	return false
+}
+
+func ropeMentions(r Rope, sub string, seen map[int]bool, rs map[Rope]bool) bool {
+	if r == nil || rs[r] {
+		return false
+	}
+	rs[r] = true
+	switch x := r.(type) {
+	case *ropeBase:
+		return termMentions(x.sym, sub, seen)
+	case *ropeConst:
+		return termMentions(x.v, sub, seen)
+	case *ropeLit:
+		return false
+	case *ropeOverlay:
+		for _, v := range x.cells {
+			if termMentions(v, sub, seen) {
+				return true
+			}
+		}
+		return ropeMentions(x.under, sub, seen, rs)
+	case *ropeStore:
+		return termMentions(x.idx, sub, seen) || termMentions(x.val, sub, seen) || ropeMentions(x.under, sub, seen, rs)
+	case *ropeCopy:
+		return termMentions(x.dst, sub, seen) || termMentions(x.n, sub, seen) || termMentions(x.srcOff, sub, seen) || ropeMentions(x.src, sub, seen, rs) || ropeMentions(x.under, sub, seen, rs)
+	}
+	return true
 }
